@@ -43,6 +43,10 @@ type op struct {
 	Stop  int      `json:"stop,omitempty"`
 	Batch []bwrite `json:"batch,omitempty"`
 	Yield int      `json:"yield,omitempty"` // runtime.Gosched() calls before the operation
+	// Fresh: the goroutine first derives a private view object of the same realm (WithRealm on the root for even
+	// views, WithExtendedRealm(nil) on the shared view for odd ones) and issues the operation through it: view
+	// creation runs concurrently with everything else, and the per-view lock is not shared.
+	Fresh bool `json:"fresh,omitempty"`
 }
 
 func (o op) String() string {
@@ -64,6 +68,9 @@ func (o op) String() string {
 		}
 	}
 	s += ")"
+	if o.Fresh {
+		s += "*"
+	}
 	if o.Yield > 0 {
 		s += fmt.Sprintf("~%d", o.Yield)
 	}
@@ -146,12 +153,20 @@ func genProgram(t *rapid.T, minG, maxG, minPer, maxPer, maxOps int, pointOnly bo
 	p.Keys = rapid.SliceOfNDistinct(rapid.SampledFrom(keyPool), nk, nk, rapid.ID[string]).Draw(t, "keys")
 	p.Filler = rapid.SampledFrom([]int{0, 200, 2000, 2000}).Draw(t, "filler")
 	g := rapid.IntRange(minG, maxG).Draw(t, "goroutines")
+	if g > 8 && maxG == 16 && minG == 2 && rapid.Bool().Draw(t, "fewer") {
+		g = (g + 1) / 2 // small programs: half of the wide ones are narrowed (keeps the judge's search feasible)
+	}
 	per := maxOps / g
 	if per > maxPer {
 		per = maxPer
 	}
 	if per < minPer {
 		per = minPer
+	}
+	if !pointOnly && g > 10 {
+		// the judge's search grows with (ops per goroutine + 1)^(goroutines that overlap): wide programs with prefix
+		// operations stay short (wide AND long programs are the per-key judged point-operation programs)
+		minPer, per = 2, 3
 	}
 	kinds := allKinds
 	if pointOnly {
@@ -184,6 +199,7 @@ func genProgram(t *rapid.T, minG, maxG, minPer, maxPer, maxOps int, pointOnly bo
 					o.Batch = append(o.Batch, bwrite{Del: rapid.IntRange(0, 2).Draw(t, "bdel") == 0, Key: rapid.SampledFrom(p.Keys).Draw(t, "bkey")})
 				}
 			}
+			o.Fresh = rapid.IntRange(0, 5).Draw(t, "fresh") == 0
 			if rapid.IntRange(0, 3).Draw(t, "yields") == 0 {
 				o.Yield = rapid.IntRange(1, 2).Draw(t, "yield")
 			}
@@ -301,6 +317,17 @@ func execute(p program) runResult {
 		st := views[o.View]
 		realm := hx(p.Views[o.View].Realm)
 		h := hop{G: g, Kind: o.Kind, Realm: realm, Arg: hx(o.Arg)}
+		if o.Fresh {
+			var err error
+			if o.View%2 == 0 {
+				st, err = root.WithRealm([]byte(p.Views[o.View].Realm))
+			} else {
+				st, err = st.WithExtendedRealm(nil)
+			}
+			if err != nil {
+				return nil, fmt.Sprintf("%s: deriving a private view: %v", o, err)
+			}
+		}
 		for i := 0; i < o.Yield; i++ {
 			runtime.Gosched()
 		}
